@@ -33,6 +33,38 @@ PLAIN_POOL = [OpenStackContext,
               type("VerifClusterLikeContext", (ExecutionContext,), {"__module__": "verif_generated"}),
               type("VerifHostDerivedContext", (HostContext,), {"__module__": "verif_generated"})]
 CTX_POOL = FS_POOL + PLAIN_POOL
+
+# Implementation FACTORIES: every class of insights.core.spec_factory whose constructor takes context=
+# (simple_file, glob_file, first_file, listdir, listglob, simple_command, command_with_args, foreach_execute,
+# foreach_collect, container_execute, container_collect, ... - enumerated from the tree, not listed here).  The
+# real constructor runs (that is what wires the contexts); __call__ is replaced by the generated body so that
+# which implementation executes is observable and its outcome is an input.
+import inspect                                              # noqa: E402
+from insights.core import spec_factory as _sf               # noqa: E402
+
+_ARGS = {"path": "/verif/none", "paths": ["/verif/none", "/verif/none2"], "patterns": "/verif/*.none",
+         "cmd": "/bin/true"}
+
+
+def _factories():
+    out = []
+    for name, cls in sorted(vars(_sf).items()):
+        if not (inspect.isclass(cls) and cls.__module__ == _sf.__name__):
+            continue
+        try:
+            params = inspect.signature(cls.__init__).parameters
+        except (TypeError, ValueError):
+            continue
+        if "context" not in params:
+            continue
+        req = [q.name for q in params.values() if q.default is inspect._empty and q.name != "self"
+               and q.kind == q.POSITIONAL_OR_KEYWORD]
+        if all(r in _ARGS or r == "provider" for r in req):
+            out.append((name, cls, req))
+    return out
+
+
+FACTORIES = _factories()
 assert not any(c in FSRoots for c in PLAIN_POOL)
 OTHER = 99
 FAILS = ["skip", "content", "crash", "cmd"]
@@ -92,6 +124,7 @@ class History(object):
             self.lvl_point.append(cls.registry[self.name])
             self.created.append(cls.registry[self.name])
         self.impl_cls = {}
+        self.fact = {}
         if "other_point" in extra:
             self.created.append(self.base.other_point)
         hist = self
@@ -131,6 +164,29 @@ class History(object):
 
         body.__name__ = "impl%d" % i
         body.__module__ = "verif_generated"
+        self.fact[i] = "fn"
+        if k in ("req", "any") and FACTORIES and self.rng.random() < 0.5:
+            # declared through a spec_factory class: context=C or context=[C1, ..]
+            fname, fcls, req = self.rng.choice(FACTORIES)
+            kw = {}
+            for r in req:
+                if r == "provider":
+                    def prov(broker):
+                        return ["x"]
+                    prov.__name__ = "provider%d_%d" % (self.uid, i)
+                    prov.__module__ = "verif_generated"
+                    pv = datasource()(prov)
+                    self.created.append(pv)
+                    kw[r] = pv
+                else:
+                    kw[r] = _ARGS[r]
+            cls_ = [self.ctx[c] for c in d["cs"]]
+            kw["context"] = cls_[0] if k == "req" else cls_
+            logged = type("Verif_" + fname, (fcls,), {"__call__": lambda self_, broker: body(broker)})
+            ds = logged(**kw)
+            self.fact[i] = fname
+            self._attach(i, d, ds)
+            return
         if k == "req":
             deps = self._ctx_decl(d["cs"])
         elif k == "any":
@@ -151,6 +207,9 @@ class History(object):
         else:
             deps = (self.impl[d["j"]],)
         ds = datasource(*deps)(body)
+        self._attach(i, d, ds)
+
+    def _attach(self, i, d, ds):
         dct = {self.name: ds}
         if self.rng.random() < 0.3:
             # an unrelated datasource in the same class body (no registry point of that name)
@@ -310,16 +369,21 @@ def run_history(h, rng):
                 hist.register(i + 1, d)
             except Exception as ex:       # the class definition itself failed: an observation, not a driver error
                 events.append({"ev": "regfail", "exc": type(ex).__name__,
-                               "d": {"k": d["k"], "cs": list(d["cs"]), "j": d["j"], "lvl": d.get("lvl", 0)}})
+                               "d": {"k": d["k"], "cs": list(d["cs"]), "j": d["j"], "lvl": d.get("lvl", 0),
+                                     "f": hist.fact.get(i + 1, "fn")}})
                 return {"id": h["id"], "kind": "gen", "nctx": h["nctx"], "levels": h.get("levels", 0),
                         "events": events, "plain_ctx": hist.plain_ctx}
             ignore, handlers, deps, rd = hist.project(i + 1)
-            events.append({"ev": "reg", "d": {"k": d["k"], "cs": list(d["cs"]), "j": d["j"], "lvl": d.get("lvl", 0)},
+            events.append({"ev": "reg", "d": {"k": d["k"], "cs": list(d["cs"]), "j": d["j"], "lvl": d.get("lvl", 0),
+                                              "f": hist.fact.get(i + 1, "fn")},
                            "ignore": ignore, "handlers": handlers, "deps": deps, "rd": rd})
             if rng.random() < 0.15:
                 hist.deep_noise(i + 1)
                 ignore, handlers, deps, rd = hist.project(i + 1)
                 events.append({"ev": "noop", "ignore": ignore, "handlers": handlers, "deps": deps, "rd": rd})
+            # evaluations BETWEEN registrations (same process, same components: state carried between runs)
+            for e in h.get("mid", {}).get(str(i + 1), []):
+                events.append(hist.evaluate(e))
         for e in h["evals"]:
             events.append(hist.evaluate(e))
         return {"id": h["id"], "kind": "gen", "nctx": h["nctx"], "levels": h.get("levels", 0), "events": events,
